@@ -191,6 +191,109 @@ def metric_of_cell(c):
 
 # ---- the check --------------------------------------------------------------------------
 
+# ---- space-group type beyond class / centring / order: rotation vs screw, mirror vs glide ----------------------
+
+_I3 = [[1, 0, 0], [0, 1, 0], [0, 0, 1]]
+
+
+def _mm(A, B):
+    return [[sum(A[i][k] * B[k][j] for k in range(3)) for j in range(3)] for i in range(3)]
+
+
+def _mv(A, v):
+    return [sum(A[i][k] * v[k] for k in range(3)) for i in range(3)]
+
+
+def _echelon(gens):
+    """echelon basis over Z of the lattice generated by integer 3-vectors"""
+    rows = [list(g) for g in gens if any(g)]
+    basis = []
+    for col in range(3):
+        cand = [r for r in rows if r[col] != 0]
+        rest = [r for r in rows if r[col] == 0]
+        while len(cand) > 1:
+            cand.sort(key=lambda r: abs(r[col]))
+            p = cand[0]
+            new = [p]
+            for r in cand[1:]:
+                q = r[col] // p[col]
+                r2 = [r[i] - q * p[i] for i in range(3)]
+                if r2[col] != 0:
+                    new.append(r2)
+                elif any(r2):
+                    rest.append(r2)
+            cand = new
+        if cand:
+            basis.append((col, cand[0]))
+        rows = rest
+    return basis
+
+
+def _member(basis, v):
+    v = list(v)
+    for col, b in basis:
+        if v[col] % b[col] != 0:
+            return False
+        q = v[col] // b[col]
+        v = [v[i] - q * b[i] for i in range(3)]
+    return not any(v)
+
+
+def type_census(sg):
+    """Invariant of the space-group TYPE (unchanged by any change of axes or origin): for every coset g.T of the translation
+    subgroup T (integer translations and the centring translations listed in the table) the kind of its rotation part
+    (det, trace) and the smallest m >= 1 such that some element of the coset has (element)^(m*n) = identity-up-to... precisely:
+    with n the order of R, N = 1 + R + ... + R^(n-1), s = N t (so g^n is the translation s), m is the least positive integer
+    with m*s in N(L), L the translation lattice; m = 1 iff the coset contains an element of finite order (a pure rotation,
+    reflection or roto-inversion), m = 2 for 2_1 screws and ordinary glides, 4 for 4_1/4_3 and d glides, ...
+    Returns {"det,trace,m": number of cosets}."""
+    ops = []
+    for op in sg.iter_symops():
+        R = [[int(round(float(x))) for x in row] for row in op.R]
+        t = [int(round(float(x) * 24)) for x in op.t]
+        ops.append((R, t))
+    cent = [t for R, t in ops if R == _I3]
+    L = [[24, 0, 0], [0, 24, 0], [0, 0, 24]] + cent
+    c = {}
+    for R, t in ops:
+        P, n = R, 1
+        while P != _I3:
+            P = _mm(P, R)
+            n += 1
+            if n > 6:
+                return {"not-a-finite-order-rotation": 1}
+        N = [[0] * 3 for _ in range(3)]
+        P = _I3
+        for _ in range(n):
+            N = [[N[a][b] + P[a][b] for b in range(3)] for a in range(3)]
+            P = _mm(P, R)
+        s_ = _mv(N, t)
+        basis = _echelon([_mv(N, l) for l in L])
+        m = next((k for k in (1, 2, 3, 4, 6, 8, 12, 24) if _member(basis, [k * x for x in s_])), None)
+        key = "%d,%d,%s" % (det3(R), R[0][0] + R[1][1] + R[2][2], m)
+        c[key] = c.get(key, 0) + 1
+    nc = max(1, len(cent))
+    if any(v % nc for v in c.values()):
+        return {"cosets-not-uniform": 1}
+    return dict(sorted((k, v // nc) for k, v in c.items()))
+
+
+def census_reference():
+    """harness/c03_itcensus.json: the census of each of the 230 space-group types, keyed by International Tables number
+    (reference data: computed once from the standard settings and confirmed by every alternative setting of the same number
+    - 514 settings from two independent sources, mmLib and cctbx - giving the same census; see DESIGN 9.8)"""
+    return json.load(open(os.path.join(os.path.dirname(os.path.abspath(__file__)), "c03_itcensus.json")))
+
+
+def census_oracle(sg, ref):
+    got = type_census(sg)
+    want = ref.get(str(sg.number % 1000))
+    if want is None or got == want:
+        return None
+    return {"what": "the operations are those of another space-group type than No. %d: rotation/screw and mirror/glide census per coset "
+                    "{det,trace,m: count} is %r, No. %d has %r" % (sg.number % 1000, got, sg.number % 1000, want), "census": got, "expected": want}
+
+
 def run(ck):
     sys.path.insert(0, VERIF)
     from translate import tables
@@ -222,9 +325,16 @@ def run(ck):
         lat_flagged[u["number"]] = u
     # 2. independent oracle on every setting (always, also when everything agrees)
     oracle_fail = {}
+    cref = census_reference()
     for pos, sg in bypos.items():
         r = group_oracle(sg) or counts_oracle(sg)
         ck.coverage["evaluations"] += 1
+        if not r:
+            # the space-group type implied by the operations vs the International Tables number (number % 1000)
+            cr = census_oracle(sg, cref)
+            if cr:
+                ck.fail("ittype:%s" % sg.number, "setting %s (#%s): %s" % (sg.short_name, sg.number, cr["what"]),
+                        {"kind": "oracle", "setting": sg.number, "stream": "ittype", "detail": cr})
         if len(sg.symop_list) > 1:
             ck.coverage["distinct_nontrivial"] += 1
         if r:
@@ -416,6 +526,10 @@ def replay(path):
         after = (id(sg.symop_list), [(o.R.tolist(), o.t.tolist()) for o in sg.symop_list])
         print("tabulated object unchanged by the lookup:", before == after)
         return 0 if before == after else 1
+    if r.get("stream") == "ittype":
+        cr = census_oracle(sg, census_reference())
+        print("type census:", cr["what"] if cr else "agrees with No. %d" % (sg.number % 1000))
+        return 1 if cr else 0
     bad = group_oracle(sg) or counts_oracle(sg)
     lat = latpar_oracle(sg, isSpaceGroupLatPar)
     print("group/counts oracle:", bad)
